@@ -11,6 +11,7 @@ import (
 	"github.com/insomniacslk/dhcp/dhcpv4/nclient4"
 	"github.com/insomniacslk/dhcp/dhcpv6"
 	"github.com/insomniacslk/dhcp/dhcpv6/nclient6"
+	"github.com/insomniacslk/dhcp/iana"
 
 	"verif/netsim"
 )
@@ -18,14 +19,14 @@ import (
 // cliAdapter hides the differences between nclient4 and nclient6 from the scenario engine.
 type cliAdapter interface {
 	name() string
-	start(conn *netsim.Conn, timeout time.Duration, tries int) error
+	start(conn *netsim.Conn, timeout time.Duration, tries int, logDropped bool) error
 	close() error
 	// request builds the request of a call; xid selects a transaction id from a small pool.
 	request(xid int, variant int) (req any, wire []byte)
 	// call runs one send-and-read; match sees (serial, type) of each candidate.
 	call(ctx context.Context, req any, match func(serial, typ int) bool, noMatcher bool) (serial int, typ int, gotNil bool, err error)
 	// datagram builds an incoming datagram.
-	datagram(kind, xid, typ, serial int, op uint8) []byte
+	datagram(kind, xid, typ, serial int, op uint8, htype uint8, padTo int) []byte
 	dest() net.Addr
 	classify(err error) string
 }
@@ -53,7 +54,7 @@ type v4Adapter struct {
 }
 
 func (a *v4Adapter) name() string { return "nclient4" }
-func (a *v4Adapter) start(conn *netsim.Conn, timeout time.Duration, tries int) error {
+func (a *v4Adapter) start(conn *netsim.Conn, timeout time.Duration, tries int, logDropped bool) error {
 	c, err := nclient4.NewWithConn(conn, cliHW, nclient4.WithTimeout(timeout), nclient4.WithRetry(tries))
 	a.c, a.conn = c, conn
 	return err
@@ -102,13 +103,28 @@ func (a *v4Adapter) call(ctx context.Context, req any, match func(serial, typ in
 	return v4Serial(resp), typ, false, err
 }
 
-func (a *v4Adapter) datagram(kind, xid, typ, serial int, op uint8) []byte {
+func (a *v4Adapter) datagram(kind, xid, typ, serial int, op uint8, htype uint8, padTo int) []byte {
 	p, _ := dhcpv4.New(dhcpv4.WithTransactionID(xidBytes(xid)), dhcpv4.WithHwAddr(cliHW), dhcpv4.WithMessageType(dhcpv4.MessageType(typ)),
 		dhcpv4.WithYourIP(net.IP{10, 0, 0, byte(serial)}), dhcpv4.WithServerIP(net.IP{10, 0, 0, 1}))
 	p.OpCode = dhcpv4.OpcodeBootReply
 	s := make([]byte, 4)
 	binary.BigEndian.PutUint32(s, uint32(serial))
 	p.UpdateOption(dhcpv4.OptGeneric(dhcpv4.GenericOptionCode(224), s))
+	if htype != 0 {
+		p.HWType = iana.HWType(htype)
+	}
+	// filler options so that the datagram has exactly padTo bytes (e.g. the 1500-byte read buffer size)
+	for code := 230; padTo > 0 && code < 250; code++ {
+		rest := padTo - len(p.ToBytes())
+		if rest < 2 {
+			break
+		}
+		n := min(255, rest-2)
+		if rest-2-n == 1 {
+			n-- // never leave a single byte that no option can fill
+		}
+		p.UpdateOption(dhcpv4.OptGeneric(dhcpv4.GenericOptionCode(uint8(code)), make([]byte, n)))
+	}
 	switch kind {
 	case dgWrongXid:
 		p.TransactionID = [4]byte{0xEE, 0xEE, byte(xid), byte(serial)}
@@ -151,8 +167,12 @@ type v6Adapter struct {
 }
 
 func (a *v6Adapter) name() string { return "nclient6" }
-func (a *v6Adapter) start(conn *netsim.Conn, timeout time.Duration, tries int) error {
-	c, err := nclient6.NewWithConn(conn, cliHW, nclient6.WithTimeout(timeout), nclient6.WithRetry(tries))
+func (a *v6Adapter) start(conn *netsim.Conn, timeout time.Duration, tries int, logDropped bool) error {
+	opts := []nclient6.ClientOpt{nclient6.WithTimeout(timeout), nclient6.WithRetry(tries)}
+	if logDropped {
+		opts = append(opts, nclient6.WithLogDroppedPackets())
+	}
+	c, err := nclient6.NewWithConn(conn, cliHW, opts...)
 	a.c, a.conn = c, conn
 	return err
 }
@@ -207,11 +227,14 @@ func (a *v6Adapter) call(ctx context.Context, req any, match func(serial, typ in
 	return v6Serial(resp), int(resp.MessageType), false, err
 }
 
-func (a *v6Adapter) datagram(kind, xid, typ, serial int, op uint8) []byte {
+func (a *v6Adapter) datagram(kind, xid, typ, serial int, op uint8, htype uint8, padTo int) []byte {
 	m := &dhcpv6.Message{MessageType: dhcpv6.MessageType(typ), TransactionID: xid6(xid)}
 	s := make([]byte, 4)
 	binary.BigEndian.PutUint32(s, uint32(serial))
 	m.AddOption(&dhcpv6.OptionGeneric{OptionCode: 65001, OptionData: s})
+	if rest := padTo - len(m.ToBytes()) - 4; padTo > 0 && rest >= 0 {
+		m.AddOption(&dhcpv6.OptionGeneric{OptionCode: 65002, OptionData: make([]byte, rest)})
+	}
 	switch kind {
 	case dgWrongXid, dgWrongHW, dgWrongOp:
 		m.TransactionID = dhcpv6.TransactionID{0xEE, byte(xid), byte(serial)}
